@@ -47,4 +47,8 @@ func runC06(c *Ctx) {
 	// whatever instance B runs
 	c.ruleOneStore("P7-locals-die-with-the-execution")
 	c.Min("P7-locals-die-with-the-execution", 1)
+	// the deferred clean-up removes what the request injected, by the keys the request gave: nothing else of
+	// a request may get into the injected table of the instance's data context -- it is written by Add,
+	// PluginLoader and Del only, never by an assignment of a rule (C15-V4)
+	c.ruleInjectedTableWriters("P8-injected-table-written-by-the-host-only")
 }
